@@ -82,7 +82,8 @@ def classify(run, bad):
         return "ret-rejected:%s" % op
     if ev == "settled":
         fw = [r.get("fault") for r in before if r.get("ev") == "call" and r.get("fault")]
-        return "no-teardown-after-%s" % ("write-error-" + fw[0] if fw else "closing-call-returned")
+        return "no-teardown-after-%s" % ("write-error-" + fw[0] if fw else "closing-call-returned") + \
+            (":underlying-close-failed" if run[0].get("closefail") and not fw else "")
     if ev == "end":
         n = sum(1 for r in before if r.get("ev") == "teardown")
         if n == 0:
